@@ -237,6 +237,7 @@ pub fn set_arena_size(size: usize) {
             fn engine_jit_block(&mut self) -> u8 {
                 let core = &mut *self.core;
                 let ip = core.registers.ip as usize;
+                core.cache.set_rom_bank(core.memory.get_rom_bank());
                 let address = match core.cache.get_address_for_ip(ip) {
                     Some(a) => a,
                     None => core.cache.translate_code_block(&core.memory.rom, ip, core.memory.as_ptr()),
